@@ -4,8 +4,9 @@ From Verif Require Import Base.Str Gen.GenSecrets Gen.GenNoteWriters Model.Redac
 Extraction Language OCaml.
 Extraction "Extract/m_redact.ml"
   Redact.is_secret_char Redact.extract_tokens Redact.redact_secret Redact.redact_text
-  Redact.redact_prompts Redact.strip_prompts Redact.segments Redact.cont_ok Redact.touched
+  Redact.redact_prompts Redact.strip_prompts Redact.segments Redact.cont_ok Redact.touched Redact.texts
+  Redact.pieces
   GenNoteWriters.note_writers
   Taint.effective_mode Taint.cannot_refetch Taint.filter_log Taint.write Taint.run Taint.inv_cleanb
   Taint.safe_writer Taint.source_is_notes Taint.w_filtered Taint.w_redacts_in_notes Taint.inventory_ok
-  Taint.inventory_notes_ok Taint.unsafe_writers.
+  Taint.inventory_notes_ok Taint.unsafe_writers Taint.cas_clears_all Taint.cas_takes_with.
